@@ -4,9 +4,11 @@ import (
 	"errors"
 	"io"
 	"net"
+	"os"
 	"sync"
 	"testing"
 	"testing/synctest"
+	"time"
 
 	"github.com/pion/ice/v4"
 	"github.com/pion/logging"
@@ -97,6 +99,7 @@ func TestSharedConn(t *testing.T) {
 			rres := map[string]string{}
 			sent, writes := 0, 0
 			wlast := []string{"-", "-"}
+			dlPast := map[string]bool{} // the driver's own record of what it set (the deadline is the handle's private state)
 			dst := &net.UDPAddr{IP: net.IPv4(10, 0, 0, 9), Port: 9}
 			obs := func() map[string]any {
 				cancelled := map[string]bool{}
@@ -166,7 +169,11 @@ func TestSharedConn(t *testing.T) {
 						}
 					}
 				})
-				return map[string]any{"got": len(handles), "cancelled": cancelled, "refs": refs, "uclosed": uclosed, "ucloses": ucloses, "qn": qn,
+				dls := map[string]bool{}
+				for _, h := range job.Handles {
+					dls[h] = dlPast[h]
+				}
+				return map[string]any{"got": len(handles), "dl": dls, "cancelled": cancelled, "refs": refs, "uclosed": uclosed, "ucloses": ucloses, "qn": qn,
 					"kpc": kpc, "kh": khs, "rpc": rpc, "rh": rhs, "rres": rr, "sent": sent, "writes": writes, "wlast": []string{wlast[0], wlast[1]}}
 			}
 			logEv := func(ev string, extra map[string]any) {
@@ -280,6 +287,8 @@ func TestSharedConn(t *testing.T) {
 								res = "closed"
 							case errors.Is(err, io.EOF):
 								res = "eof"
+							case errors.Is(err, os.ErrDeadlineExceeded):
+								res = "timeout"
 							}
 							dm.do(func() { rres[r] = res })
 						})
@@ -310,6 +319,20 @@ func TestSharedConn(t *testing.T) {
 							st["adapted"]++
 						}
 						ok = true
+					}
+				case "SetRD":
+					h, past := args[0], args[1] == "TRUE"
+					if hidx[h] < len(handles) {
+						t0 := time.Time{}
+						if past {
+							t0 = time.Now().Add(-time.Second)
+						}
+						if err := handles[hidx[h]].SetReadDeadline(t0); err == nil {
+							dlPast[h] = past
+							s.wait()
+							logEv("SetRD", map[string]any{"h": h, "v": past})
+							ok = true
+						}
 					}
 				case "Write":
 					h := args[0]
